@@ -303,7 +303,22 @@ func (s *Symx) of(v ssa.Value, visiting map[ssa.Value]bool, depth int) *Term {
 	case *ssa.MakeSlice:
 		return &Term{Op: "makeslice", Name: shortType(x.Type()), Args: []*Term{rec(x.Len)}, Val: v}
 	case *ssa.MakeMap:
-		return &Term{Op: "makemap", Name: shortType(x.Type()), Val: v}
+		// map literal: constant-key updates in the same function
+		t := &Term{Op: "makemap", Name: shortType(x.Type()), Val: v}
+		if refs := x.Referrers(); refs != nil {
+			for _, r := range *refs {
+				if mu, ok := r.(*ssa.MapUpdate); ok && mu.Map == ssa.Value(x) {
+					if k, ok := mu.Key.(*ssa.Const); ok && k.Value != nil {
+						if t.Fields == nil {
+							t.Fields = map[string]*Term{}
+							t.Op = "lit"
+						}
+						t.Fields[k.Value.ExactString()] = rec(mu.Value)
+					}
+				}
+			}
+		}
+		return t
 	case *ssa.MakeChan:
 		return &Term{Op: "makechan", Val: v}
 	case *ssa.Range:
